@@ -266,6 +266,7 @@ impl Assembler for PointAssembler {
             // fallthrough to out
 
             ; O:
+            ; add rsi, 1 // advance to the next choice slot
         );
         self.0.ops.commit_local().unwrap()
     }
@@ -300,6 +301,7 @@ impl Assembler for PointAssembler {
             // fallthrough to out
 
             ; O:
+            ; add rsi, 1 // advance to the next choice slot
         );
         self.0.ops.commit_local().unwrap()
     }
@@ -360,6 +362,7 @@ impl Assembler for PointAssembler {
             ; sub r8b, al
             ; or [rsi], r8b // write the choice flag, based on condition flags
             ; or [rdx], 1 // write the simplify bit
+            ; add rsi, 1 // advance to the next choice slot
             ; movaps Rx(reg(out_reg)), xmm1
         );
         self.0.ops.commit_local().unwrap()
@@ -381,6 +384,7 @@ impl Assembler for PointAssembler {
             ; inc al
             ; or [rsi], al // write the choice flag, based on condition flags
             ; or [rdx], 1 // write the simplify bit
+            ; add rsi, 1 // advance to the next choice slot
             ; movaps Rx(reg(out_reg)), xmm1
         );
         self.0.ops.commit_local().unwrap()
